@@ -128,6 +128,41 @@ func boolList(xs []bool) string {
 	return lib.List(it)
 }
 
+// CompactZList renders a list of integers as a Coq term, writing maximal runs x, x+1, x+2, ... of at least 8
+// elements as (zrange x n) so that long external-trigger lists stay short in the shard files.
+func CompactZList(xs []int64) string {
+	var parts []string
+	var lit []int64
+	flush := func() {
+		if len(lit) > 0 {
+			parts = append(parts, lib.ZList64(lit))
+			lit = nil
+		}
+	}
+	for i := 0; i < len(xs); {
+		j := i + 1
+		for j < len(xs) && xs[j-1] < (1<<62) && xs[j] == xs[j-1]+1 {
+			j++
+		}
+		if j-i >= 8 {
+			flush()
+			parts = append(parts, fmt.Sprintf("(zrange %s %d)", lib.Z(xs[i]), j-i))
+			i = j
+		} else {
+			lit = append(lit, xs[i])
+			i++
+		}
+	}
+	flush()
+	if len(parts) == 0 {
+		return "[]"
+	}
+	if len(parts) == 1 {
+		return parts[0]
+	}
+	return "(" + strings.Join(parts, " ++ ") + ")"
+}
+
 // WritersTerm renders per-channel (has22, has3, hasOFF).
 func WritersTerm(w [][3]bool) string {
 	it := make([]string, len(w))
@@ -746,7 +781,11 @@ func GenWC(r *lib.Rng, kind int, twoBases bool) Op {
 	case 3:
 		o.Req = reqUnpause[r.Intn(len(reqUnpause))]
 	case 4:
-		o.Req = reqUnpause[r.Intn(len(reqUnpause))] + " " + GenLabel(r)
+		l := GenLabel(r)
+		if r.Chance(1, 4) { // a label the repaired code refuses: the request must then change nothing
+			l = []string{"two\nlines", "cr\rlf", "end\n", "\n", "a\r\nb"}[r.Intn(5)]
+		}
+		o.Req = reqUnpause[r.Intn(len(reqUnpause))] + " " + l
 	default:
 		switch r.Intn(4) {
 		case 0:
